@@ -2,9 +2,21 @@ import MpVerif.C07.Model
 /-!
 # C07 — specification: "the point satisfies the model within the tolerances"
 
-Written from the property text and the model *data* only (variables, constraints with their context, objectives, options,
-the point): no candidate list, no `Violation`, no `check`, no summaries.  `Props.lean` proves that the checker's report is
-empty exactly when this predicate holds (`C07_sat_*`).
+Written from the property text and the model *data* (variables, constraints with their context, objectives, options, the
+point).  It does not mention the candidate list, `Violation`, `Violation.check`, the violation measures (`AlgCon.viol`,
+`funcViol`, `condViol`, `sos1Viol`, `sos2Viol`, `complViol`) or the summaries, and function values are the mathematical
+`Func.denote`, not the evaluator `Func.value` (`LemmasSpec.lean` `value_eq_denote` proves them equal on `Func.inDomain`).
+
+What it DOES share with the checker model (`Model.lean`), and therefore cannot expose as wrong:
+* the tolerance rule `TolLE` (absolute, or relative to a non-zero reference value) is the rule of `Violation::Check` written
+  as a proposition; which value is the reference of each amount is taken from the code;
+* "non-zero / positive beyond tolerance" and "at its lower / upper bound" (`nonZeroV`, `positiveV`, `atLbV`, `atUbV`) are the
+  same expressions as `VarInfo::is_nonzero / is_positive / is_at_lb / is_at_ub` (tied to the C++ by `C07_gen_varinfo`);
+* `cround`, `rabs`, `Body.val`, `plValue`, `AlgCon.isValid`, `maxL`, `minL` are the arithmetic of `Model.lean`;
+* the evaluation point: `passEnv` applies the model's `applyPrecision`, and the idealistic pass evaluates at the model's
+  `recompute` (characterised separately by `C07_recompute_unique`, `C07_round_digits`);
+* the class of an item (`specClass`) is the same expression as `Item.cclass`.
+`Props.lean` proves that the checker model's report is empty exactly when `SatTolPassTested` holds (`C07_sat_*`).
 -/
 namespace MpVerif.C07
 
@@ -38,24 +50,94 @@ def CondSpec (ctx : Ctx) (b : Bool) (c : AlgCon) (x : Pt) (ea er : Rat) : Prop :
   | .mix => (b = true → RowOK c x ea er) ∧ (b = false → ¬ RowMargin c x ea)
   | .none => True
 
+/-- by how much the value leaves `[lb, ub]` (0 inside) -/
+def boundExcess (e : Env) (i : Nat) : Rat :=
+  max 0 (max (match e.lb i with | some l => l - e.x i | none => 0) (match e.ub i with | some u => e.x i - u | none => 0))
+
 /-- on recomputed values: the recomputed result equals the solver's value and respects its bounds -/
 def RecompSpec (res : Nat) (e : Env) (ea er : Rat) : Prop :=
-  TolLE (rabs (e.x res - e.raw res) + e.boundsViolPos res) (e.x res) ea er
+  TolLE (rabs (e.x res - e.raw res) + boundExcess e res) (e.x res) ea er
 
-/-- what one constraint of the flat model asks of the point.  For SOS and complementarity rows the text gives no measure
-of their own: "the number of excess non-zeros / the sign-restricted value of the complementing expression is at most the
-absolute tolerance". -/
+/-- some two entries are equal -/
+def anyEq : List Rat → Bool
+  | [] => false
+  | a :: t => t.any (fun b => decide (a = b)) || anyEq t
+
+/-- a value counts as non-zero / positive beyond tolerance: one half for integer variables, the feasibility tolerance otherwise -/
+def nonZeroV (e : Env) (v : Nat) : Bool := decide ((if e.isInt v then (1/2 : Rat) else e.feastol) ≤ rabs (e.x v))
+def positiveV (e : Env) (v : Nat) : Bool := decide ((if e.isInt v then (1/2 : Rat) else e.feastol) ≤ e.x v)
+/-- the variable sits on its lower / upper bound (within the feasibility tolerance) -/
+def atLbV (e : Env) (v : Nat) : Bool := match e.lb v with | some l => decide (e.x v - l ≤ e.feastol) | none => false
+def atUbV (e : Env) (v : Nat) : Bool := match e.ub v with | some u => decide (u - e.x v ≤ e.feastol) | none => false
+/-- SOS2 on the positions (in weight order) of the non-zero members: none, one, or two adjacent ones -/
+def SOS2OK : List Nat → Prop
+  | [] | [_] => True
+  | [i, j] => j = i + 1
+  | _ => False
+
+/-- the class of a constraint in the reformulation: 8 if it is delivered to the solver (not reformulated further), 2 if it
+comes directly from the model (depth 0) — both may apply —, otherwise 4 (intermediate) -/
+def specClass (it : Item) : Nat :=
+  let c := (if it.bridged then 0 else 8) + (if it.depth = 0 then 2 else 0)
+  if c = 0 then 4 else c
+
+/-! ### mathematical values of the functional constraints -/
+
+def isBoolV (q : Rat) : Bool := decide (q = 0) || decide (q = 1)
+def isIntV (q : Rat) : Bool := decide ((cround q : Rat) = q)
+
+/-- the mathematical function each functional constraint denotes (logical values are 0/1) -/
+def Func.denote (f : Func) (e : Env) : Rat :=
+  match f with
+  | .affine b => b.val e.x
+  | .max a => maxL (a.map e.x)
+  | .min a => minL (a.map e.x)
+  | .abs a => rabs (e.x a)
+  | .and a => b2r (a.all (fun i => decide (e.x i = 1)))
+  | .or a => b2r (a.any (fun i => decide (e.x i = 1)))
+  | .not a => b2r (decide (e.x a = 0))
+  | .div a b => e.x a / e.x b
+  | .ifthen c t el => if e.x c = 1 then e.x t else e.x el
+  | .impl c t el => b2r (if e.x c = 1 then decide (e.x t = 1) else decide (e.x el = 1))
+  | .alldiff a => b2r (!(anyEq (a.map e.x)))
+  | .numberofConst k a => ((a.filter (fun v => decide (e.x v = k))).length : Nat)
+  | .numberofVar v0 a => ((a.filter (fun v => decide (e.x v = e.x v0))).length : Nat)
+  | .count a => ((a.filter (fun v => decide (e.x v = 1))).length : Nat)
+  | .cond c => b2r (c.isValid (c.body.val e.x))
+  | .pl pts a => plValue pts (e.x a)
+  | .pow a k => (e.x a) ^ k
+
+/-- where the evaluator of `constr_eval.h` computes that function: logical arguments are 0/1, `max`/`min` have an argument,
+no division by zero, `alldiff` / `numberof` over integral values with a tolerance below 1/2 -/
+def Func.inDomain (f : Func) (e : Env) : Bool :=
+  match f with
+  | .max a | .min a => !a.isEmpty
+  | .and a | .or a | .count a => a.all (fun i => isBoolV (e.x i))
+  | .not a => isBoolV (e.x a)
+  | .div _ b => decide (e.x b ≠ 0)
+  | .ifthen c _ _ => isBoolV (e.x c)
+  | .impl c t el => isBoolV (e.x c) && isBoolV (e.x t) && isBoolV (e.x el)
+  | .alldiff a => a.all (fun i => isIntV (e.x i))
+  | .numberofConst k a => isIntV k && a.all (fun i => isIntV (e.x i)) && decide (e.feastol < 1/2)
+  | .numberofVar v0 a => isIntV (e.x v0) && a.all (fun i => isIntV (e.x i)) && decide (e.feastol < 1/2)
+  | _ => true
+
+/-- what one constraint of the flat model asks of the point.  SOS1: at most one member non-zero beyond tolerance; SOS2: at most two, adjacent in weight order;
+complementarity by the position of the complementing variable. -/
 def ConSpec (c : Con) (e : Env) (ea er : Rat) : Prop :=
   match c with
   | .alg a => RowOK a e.x ea er
-  | .func res ctx f => if e.recomp then RecompSpec res e ea er else FuncSpec ctx (e.x res) (f.value e) ea er
+  | .func res ctx f => if e.recomp then RecompSpec res e ea er else FuncSpec ctx (e.x res) (f.denote e) ea er
   | .adef res ctx b => if e.recomp then RecompSpec res e ea er else FuncSpec ctx (e.x res) (b.val e.x) ea er
   | .cond res ctx a =>
       if e.recomp then RecompSpec res e ea er else CondSpec ctx (decide ((1/2 : Rat) ≤ e.x res)) a e.x ea er
   | .indicator b bv a => cround (e.x b) = bv → RowOK a e.x ea er
-  | .sos1 vs => (((vs.filter e.isNonzero).length - 1 : Nat) : Rat) ≤ ea
-  | .sos2 vs => ∀ a, (sos2Viol vs e).viol = .fin a → a ≤ ea
-  | .compl ex v => ∀ a, (complViol ex v e).viol = .fin a → a ≤ ea
+  | .sos1 vs => (vs.filter (nonZeroV e)).length ≤ 1
+  | .sos2 vs => SOS2OK ((List.range vs.length).filter (fun i => positiveV e (vs.getD i 0)))
+  | .compl ex v =>
+      if atLbV e v then -(ex.val e.x) ≤ ea          -- at the lower bound the expression must be non-negative
+      else if atUbV e v then ex.val e.x ≤ ea        -- at the upper bound non-positive
+      else rabs (ex.val e.x) ≤ ea                   -- strictly inside it must vanish
 
 /-- bounds of a variable -/
 def BoundsOK (v : VarD) (x ea er : Rat) : Prop :=
@@ -70,7 +152,7 @@ bit 1 variables (auxiliary ones only on the solver's values), bits 2|4|8 every c
 def SatTolPass (m : Model) (o : Opts) (e : Env) (mode : Nat) (objv : List Rat) : Prop :=
   (mode &&& 1 ≠ 0 → ∀ i, i < m.nvars → ((m.var i).orig = true ∨ e.recomp = false) →
       BoundsOK (m.var i) (e.x i) o.feastol o.feastolrel ∧ ((m.var i).isInt = true → IntOK (e.x i) o.inttol)) ∧
-  (mode &&& 14 ≠ 0 → ∀ kp, kp ∈ m.keepers → ∀ it, it ∈ kp.items → it.cclass &&& mode ≠ 0 →
+  (mode &&& 14 ≠ 0 → ∀ kp, kp ∈ m.keepers → ∀ it, it ∈ kp.items → specClass it &&& mode ≠ 0 →
       ConSpec it.con e o.feastol o.feastolrel) ∧
   (mode &&& 16 ≠ 0 → ∀ i, i < min m.objs.length objv.length →
       TolLE (rabs (objv.getD i 0 - (m.objs.getD i default).body.val e.x)) ((m.objs.getD i default).body.val e.x)
@@ -95,6 +177,17 @@ def Con.ctxNone : Con → Bool
   | .func _ .none _ => true
   | .cond _ .none _ => true
   | _ => false
+
+/-- `SatTolPass` restricted to the constraints the checker tests: bounds, integrality, objectives as in `SatTolPass`;
+constraints only for items with `untested = false` -/
+def SatTolPassTested (m : Model) (o : Opts) (e : Env) (mode : Nat) (objv : List Rat) : Prop :=
+  (mode &&& 1 ≠ 0 → ∀ i, i < m.nvars → ((m.var i).orig = true ∨ e.recomp = false) →
+      BoundsOK (m.var i) (e.x i) o.feastol o.feastolrel ∧ ((m.var i).isInt = true → IntOK (e.x i) o.inttol)) ∧
+  (mode &&& 14 ≠ 0 → ∀ kp, kp ∈ m.keepers → ∀ it, it ∈ kp.items → specClass it &&& mode ≠ 0 → it.untested = false →
+      ConSpec it.con e o.feastol o.feastolrel) ∧
+  (mode &&& 16 ≠ 0 → ∀ i, i < min m.objs.length objv.length →
+      TolLE (rabs (objv.getD i 0 - (m.objs.getD i default).body.val e.x)) ((m.objs.getD i default).body.val e.x)
+        o.feastol o.feastolrel)
 
 /-- data well-formedness the measures rely on: rows have `lo ≤ hi` -/
 def AlgCon.wf (c : AlgCon) : Prop := ∀ l u, c.lo = some l → c.hi = some u → l ≤ u
